@@ -235,6 +235,43 @@ fn compose(rng: &mut Rng) -> String {
     )
 }
 
+/// Array libfuncs whose CASM depends on the element size and on the popped size: element type
+/// `[felt252; K]` (K cells), spans with readable data behind them, index / slice / multi-pop of
+/// PRNG sizes (the range proofs of `array_get`, `array_slice` and `array_snapshot_multi_pop_*`
+/// are built from `element_size` and `popped_size` constants).
+fn array_inst(rng: &mut Rng) -> String {
+    let k = [1usize, 2, 3, 4, 5, 6, 7, 8, 9, 12, 16, 17][rng.below(12)];
+    let lenmod = 3 + rng.below(5);
+    let prologue = format!(
+        "    let mut arr: Array<[felt252; {k}]> = array![];\n    let mut i: u8 = 0;\n    while i != n % {lenmod} {{ arr.append([i.into() * 7 + 1; {k}]); i += 1; }}\n    let sp = arr.span();\n    arr.append([9001; {k}]);\n    arr.append([9002; {k}]);\n    arr.append([9003; {k}]);\n"
+    );
+    let km1 = k - 1;
+    let body = match rng.below(5) {
+        0 => format!(
+            "    let r: felt252 = match sp.get(idx) {{ Some(b) => {{ let e: [felt252; {k}] = *b.unbox(); let s = e.span(); *s.at(0) + 2 * *s.at({km1}) }}, None => 999 }};\n    r * 2 + arr.len().into()\n"
+        ),
+        1 => {
+            let m = rng.below(4);
+            format!(
+                "    let sl = sp.slice(idx, {m});\n    let r: felt252 = sl.len().into() * 1000 + (if sl.len() == 0 {{ 0 }} else {{ let e: [felt252; {k}] = *sl.at(0); *e.span().at({km1}) }});\n    r * 2 + arr.len().into()\n"
+            )
+        }
+        2 => format!(
+            "    let sl = sp.slice(idx % 4, (idx / 4) % 4);\n    let r: felt252 = sl.len().into() * 1000 + (if sl.len() == 0 {{ 0 }} else {{ let e: [felt252; {k}] = *sl.at(sl.len() - 1); *e.span().at(0) }});\n    r * 2 + arr.len().into()\n"
+        ),
+        v => {
+            // Popped sizes on both sides of 16 cells and beyond.
+            let n_pop = (1 + rng.below(if k >= 8 { 4 } else { 40 / k })).max(1);
+            let np1 = n_pop - 1;
+            let which = if v == 3 { "multi_pop_front" } else { "multi_pop_back" };
+            format!(
+                "    let mut sp = sp;\n    let _unused = idx;\n    let r: felt252 = match sp.{which}::<{n_pop}>() {{ Some(b) => {{ let a: [[felt252; {k}]; {n_pop}] = (*b).unbox(); let s = a.span(); let e: [felt252; {k}] = *s.at({np1}); *e.span().at({km1}) + sp.len().into() * 100 }}, None => 61 + sp.len().into() }};\n    r * 2 + arr.len().into()\n"
+            )
+        }
+    };
+    format!("fn gen_array(n: u8, idx: u32) -> felt252 {{\n{prologue}{body}}}\n")
+}
+
 /// Writes `n` generated single-function files under `dir`; returns their paths.
 pub fn generate(dir: &Path, seed: u64, n: usize) -> Vec<PathBuf> {
     let _ = std::fs::create_dir_all(dir);
@@ -249,6 +286,15 @@ pub fn generate(dir: &Path, seed: u64, n: usize) -> Vec<PathBuf> {
         };
         let p = dir.join(format!("gen_{kind}_{k:04}.cairo"));
         if std::fs::write(&p, src).is_ok() {
+            out.push(p);
+        }
+    }
+    // Array instantiations come after (and on their own PRNG streams), so the files above are the
+    // same for a given seed whether or not these exist.
+    for k in 0..n / 8 {
+        let mut rng = Rng::stream(simcore::mix(seed, k as u64), "c03-gen-array");
+        let p = dir.join(format!("gen_array_{k:04}.cairo"));
+        if std::fs::write(&p, array_inst(&mut rng)).is_ok() {
             out.push(p);
         }
     }
